@@ -426,7 +426,8 @@ void heap_set_budget(int64_t bytes) { g_budget = bytes; g_live = 0; g_peak_req =
 int64_t heap_peak_request() { return g_peak_req; }
 bool heap_budget_hit() { return g_budget_hit; }
 static inline void* budget_alloc(size_t n, bool nothrow) {
-  if (g_budget > 0) {
+  const bool enforce = g_budget > 0 && sim::in_task();   // the scheduler's own bookkeeping (main context) is exempt
+  if (enforce) {
     if (static_cast<int64_t>(n) > g_peak_req) g_peak_req = static_cast<int64_t>(n);
     if (n > static_cast<size_t>(g_budget) || g_live + static_cast<int64_t>(n) > g_budget) {
       g_budget_hit = true;
@@ -436,7 +437,7 @@ static inline void* budget_alloc(size_t n, bool nothrow) {
   }
   void* p = malloc(n ? n : 1);
   if (!p) { if (nothrow) return nullptr; throw std::bad_alloc(); }
-  if (g_budget > 0) g_live += static_cast<int64_t>(malloc_usable_size(p));
+  if (enforce) g_live += static_cast<int64_t>(malloc_usable_size(p));
   return p;
 }
 static inline void budget_free(void* p) {
